@@ -339,16 +339,23 @@ func (t *HHWheelTimer) expireNear() {
 		var next = node.next
 		node.unchain()
 
-		t.C <- node.r // trigger
-
-		// schedule again
-		if node.period > 0 {
-			node.deadline = t.tickTime + node.period
-			t.addNode(node)
-		} else {
-			t.guard.Lock()
+		// decide under the mutex: a timer cancelled in the meantime is dropped,
+		// a one-shot timer leaves the refer map before it is delivered
+		t.guard.Lock()
+		var scheduled = t.refer[node.id] == node
+		if scheduled && node.period <= 0 {
 			delete(t.refer, node.id)
-			t.guard.Unlock()
+		}
+		t.guard.Unlock()
+
+		if scheduled {
+			t.C <- node.r // trigger
+
+			// schedule again
+			if node.period > 0 {
+				node.deadline = t.tickTime + node.period
+				t.addNode(node)
+			}
 		}
 		node = next
 	}
